@@ -239,5 +239,9 @@ Fixpoint insert_sorted (x : N) (l : list N) : list N :=
   | [] => [x]
   | h :: t => if (x <? h)%N then x :: l else if (x =? h)%N then l else h :: insert_sorted x t
   end.
+(* AFTER the fix commit: a buffer without cells reports page 0 *)
 Definition used_pages (rows : list (list cell)) : list N :=
-  fold_left (fun acc c => insert_sorted (font_page (c_attr c)) acc) (concat rows) [].
+  match fold_left (fun acc c => insert_sorted (font_page (c_attr c)) acc) (concat rows) [] with
+  | [] => [0%N]
+  | l => l
+  end.
